@@ -106,6 +106,8 @@ func (sm *SeatManager) join(seatID int, p PlayerInfo) (int, error) {
 		return -1, ErrNotAvailable
 	}
 
+	verifYield("join:free-then-take")
+
 	s.IsReserved = true
 	s.Player = p
 
@@ -118,6 +120,8 @@ func (sm *SeatManager) leave(seatID int) error {
 	if s.Player == nil {
 		return ErrEmptySeat
 	}
+
+	verifYield("leave:taken-then-free")
 
 	s.Player = nil
 	s.IsReserved = false
@@ -269,6 +273,8 @@ func (sm *SeatManager) getAvailableSeats() ([]int, []int) {
 			alternateSeats = append(alternateSeats, s.ID)
 		}
 	}
+
+	verifOrder(seats, alternateSeats)
 
 	return seats, alternateSeats
 }
@@ -579,6 +585,8 @@ func (sm *SeatManager) Join(seatID int, p PlayerInfo) (int, error) {
 		return -1, ErrNoAvailableSeat
 	}
 
+	verifYield("Join:listed-then-pick")
+
 	// Select a seat from list randomly
 	if len(s) > 0 {
 		if len(s) == 1 {
@@ -612,6 +620,8 @@ func (sm *SeatManager) Next() error {
 	if sm.nextDealer() == nil {
 		return ErrInsufficientNumberOfPlayers
 	}
+
+	verifYield("Next:dealer-then-blinds")
 
 	return sm.renewSeatStatus()
 }
